@@ -1,6 +1,46 @@
 """Property -> rules map.  `quick` rules run in both tiers; `thorough` adds the rest."""
 
 PROPS = {
+    "C05": {
+        "quick": ["R-SOLVER-SIG", "R-TRANS-EXH", "R-EFF-SOLVE", "R-AUTO-GUARD"],
+        "thorough": [],
+        "technique": "static signature / exhaustiveness / guard-dominance rules and effect analysis over all solver classes",
+        "claim": "Decides the structural clauses of C05 for all 16 solver classes: every solver implements "
+                 "update(A) and solve(rhs, x0=None, trans='N') with the contract's signature; each of the modes N/T/H "
+                 "reaches a return and is not routed into a raise; no solve() mutates rhs/x0 or returns memory aliasing "
+                 "them and no update() mutates the matrix; every class returned by auto_determine_solver is dominated "
+                 "by its applicability guards. Whether the factorisations produce the right numbers is not decided.",
+        "explanation": "Three-valued evaluation of the mode tests on each solve() CFG for trans in {N,T,H}; may-alias "
+                       "effect analysis of solve/update with interprocedural summaries; guard facts (dominating tests, "
+                       "conjunct-split) for each return of auto_determine_solver against a frozen applicability table.",
+    },
+    "C06": {
+        "quick": ["R-UFUNC-ARITY", "R-DIAG-DEP", "R-DB-CLEAR", "R-DB-PAIR", "R-LATCH-LDA", "R-EFF-SOLVE"],
+        "thorough": ["R-INNER-GUARD", "R-LDA-DEFAULT"],
+        "technique": "static must-pass-through, dependence slicing through operand positions, argument-triple tables",
+        "claim": "Decides the structural clauses of C06: the decoupled-dof mask depends on row AND column non-zero counts "
+                 "as operands (no ufunc takes a condition in its out= slot anywhere in the package); update() clears "
+                 "every database the solve helper appends to, reassigns every per-matrix attribute and updates the "
+                 "inner solver on every path; each database solve gets a consistent (matrix mode, database pair, inner "
+                 "mode) triple with disjoint pairs; nothing is latched from the first matrix; rhs/x0 are never mutated; "
+                 "(thorough) the inner solver is called only under the residual-vs-tolerance test and LinSolve wraps by "
+                 "default. Residuals and the storage/conjugation truth table are not decided.",
+        "explanation": "Database attributes are derived from call-site bindings to the helper's appended-to parameters; "
+                       "must-pass-through on update()'s CFG; operand-position dependence slice of the mask; "
+                       "classification of update()'s conditional assignments.",
+    },
+    "C15": {
+        "quick": ["R-DYAD-PURE", "R-DYAD-OWN", "R-EMPTY-IDX", "R-ACC-DTYPE"],
+        "thorough": [],
+        "technique": "static effect/ownership analysis of every DyadCarrier method",
+        "claim": "Decides the operand-safety and ownership clauses of C15 for all 36 DyadCarrier methods: only the "
+                 "in-place methods store attributes or mutate stored vectors, no method mutates an argument or returns "
+                 "self unless in-place, every vector stored in the carrier is fresh memory, no constant index into a "
+                 "possibly empty vector list, accumulators take their dtype from the carrier/result type. Dense "
+                 "equivalence of the arithmetic (numeric) is not decided.",
+        "explanation": "May-alias origins and mutation sinks per method with callee summaries; append-site ownership; "
+                       "dominance of non-emptiness tests; allocation dtype provenance of accumulators.",
+    },
     "C19": {
         "quick": ["R-PROTOCOL", "R-RESTORE", "R-FD-WRITEBACK", "R-SIBLING-EXC", "R-EFF-SEED"],
         "thorough": [],
